@@ -68,7 +68,7 @@ void harness(void)
 		reppiece[i][1] = 0;
 		if (kind == 1) {
 			unsigned char c = symx_u8("rc");
-			symx_assume(c == 'R' || c == '-' || c == '&');
+			symx_assume(c == 'R' || c == '-' || c == '&' || c == '|' || c == '"');
 			rep[n++] = c;
 			reppiece[i][1] = c;
 		} else if (kind == 2) {
@@ -80,7 +80,7 @@ void harness(void)
 			reppiece[i][1] = d;
 		} else if (kind == 3) {
 			unsigned char c = symx_u8("re");
-			symx_assume(c == '\\' || c == 'n' || c == '.');
+			symx_assume(c == '\\' || c == 'n' || c == '.' || c == '/');
 			rep[n++] = '\\';
 			rep[n++] = c;
 			reppiece[i][1] = c;
